@@ -50,7 +50,7 @@ func NewPriorityQueue(lessFn common_info.LessFn, maxQueueSize int) *PriorityQueu
 func (q *PriorityQueue) Push(it interface{}) {
 	heap.Push(&q.queue, it)
 	if q.maxQueueSize != QueueCapacityInfinite && q.queue.Len() > q.maxQueueSize {
-		heap.Remove(&q.queue, q.maxQueueSize)
+		heap.Remove(&q.queue, q.queue.lastInOrderIndex())
 	}
 }
 
@@ -107,6 +107,17 @@ func (pq *priorityQueue) Pop() interface{} {
 	item := old[n-1]
 	(*pq).items = old[0 : n-1]
 	return item
+}
+
+// lastInOrderIndex returns the index of the item that would be popped last. It is always one of the heap's leaves.
+func (pq *priorityQueue) lastInOrderIndex() int {
+	last := pq.Len() - 1
+	for i := pq.Len() / 2; i < pq.Len()-1; i++ {
+		if pq.Less(last, i) {
+			last = i
+		}
+	}
+	return last
 }
 
 func (pq *priorityQueue) Peek() interface{} {
